@@ -750,9 +750,13 @@ class CSSStyleSheet(cssutils.stylesheets.StyleSheet):
                             index = len(self._cssRules) - i
                             break
                 else:
-                    # find first point to insert
+                    # find first point to insert, after @charset and @import
+                    first = 0
                     for i, r in enumerate(self._cssRules):
-                        if r.type in (
+                        if r.type in (r.CHARSET_RULE, r.IMPORT_RULE):
+                            first = i + 1
+                    for i, r in enumerate(self._cssRules):
+                        if i >= first and r.type in (
                             r.VARIABLES_RULE,
                             r.MEDIA_RULE,
                             r.PAGE_RULE,
@@ -820,9 +824,14 @@ class CSSStyleSheet(cssutils.stylesheets.StyleSheet):
                             index = len(self._cssRules) - i
                             break
                 else:
-                    # find first point to insert
+                    # find first point to insert, after @charset, @import
+                    # and @namespace
+                    first = 0
                     for i, r in enumerate(self._cssRules):
-                        if r.type in (
+                        if r.type in (r.CHARSET_RULE, r.IMPORT_RULE, r.NAMESPACE_RULE):
+                            first = i + 1
+                    for i, r in enumerate(self._cssRules):
+                        if i >= first and r.type in (
                             r.MEDIA_RULE,
                             r.PAGE_RULE,
                             r.STYLE_RULE,
